@@ -9,8 +9,8 @@ from ..common.outcome import Outcome, require
 
 ID = "C20"
 RULE = (
-    "K in 1..6, n in K..40, true labels covering 0..K-1 by construction, predictions in 0..K-1 (random, all correct, one wrong, all wrong, "
-    "a true class never predicted), passed as lists or ndarrays; oracle = the definitions of the statement evaluated with exact rationals "
+    "K in 1..24, n in K..40, true labels covering 0..K-1 by construction, predictions in 0..K-1 (random, all correct, one wrong, all wrong, "
+    "a true class never predicted), passed as lists or ndarrays of dtype int64/int32/int16/uint8/uint16; oracle = the definitions of the statement evaluated with exact rationals "
     "(accuracy, bounds, ==1 iff all correct, confusion matrix = pair counts, per-label accuracy = recall, purity in (0,1] and ==1 iff every predicted group is pure); "
     "normalize: matrices with >= 2 rows of small dyadic values plus per-column offsets up to 1.6e9 (|mean| >> std), every non-constant column compared with (v-mean)/population-std. "
     "non-trivial: K >= 2, unbalanced class counts, >= 1 error and >= 1 correct prediction (or, for normalize, >= 2 non-constant columns); distinct by case hash"
@@ -24,8 +24,8 @@ BUDGET = {
 
 @st.composite
 def _measure_case(draw):
-    K = draw(st.integers(1, 6))
-    n = draw(st.integers(K, 40))
+    K = draw(st.one_of(st.integers(1, 6), st.integers(1, 6), st.integers(7, 24)))
+    n = draw(st.integers(K, max(40, K)))
     lab = draw(gen.labels(n, kmin=K, kmax=K))
     mode = draw(st.sampled_from(["random", "random", "random", "all_correct", "one_wrong", "all_wrong", "never_predicted", "few_wrong"]))
     if K == 1 and mode in ("one_wrong", "all_wrong", "never_predicted", "few_wrong"):
@@ -50,7 +50,8 @@ def _measure_case(draw):
         to = (miss + draw(st.integers(1, K - 1))) % K
         base = draw(st.lists(st.integers(0, K - 1), min_size=n, max_size=n))
         pr = [to if v == miss else v for v in base]
-    return {"t": "measure", "labels": lab, "preds": pr, "as_array": draw(st.booleans()), "mode": mode}
+    return {"t": "measure", "labels": lab, "preds": pr, "as_array": draw(st.booleans()), "mode": mode,
+            "dtype": draw(st.sampled_from(["int64", "int64", "int32", "int16", "uint8", "uint16"]))}
 
 
 @st.composite
@@ -107,8 +108,9 @@ def check_case(case):
     K = max(lab) + 1
     if set(lab) != set(range(K)) or any(p < 0 or p >= K for p in pr):
         return Outcome.discard("outside_domain")
-    La = np.array(lab, dtype=int) if case["as_array"] else list(lab)
-    Pa = np.array(pr, dtype=int) if case["as_array"] else list(pr)
+    dt = np.dtype(case.get("dtype", "int64"))
+    La = np.array(lab, dtype=dt) if case["as_array"] else list(lab)
+    Pa = np.array(pr, dtype=dt) if case["as_array"] else list(pr)
 
     counts = [sum(1 for v in lab if v == c) for c in range(K)]
     pair = [[0] * K for _ in range(K)]
@@ -149,7 +151,7 @@ def check_case(case):
     require((pu == 1.0) == pure, "purity:one_iff_pure", lambda: "purity=%r pure=%r (labels=%r preds=%r)" % (pu, pure, lab, pr))
 
     nt = K >= 2 and len(set(counts)) > 1 and (not all_correct) and any(a == b for a, b in zip(lab, pr))
-    cl = ["measure", "mode_" + case["mode"], "K=%d" % K, "array" if case["as_array"] else "list"]
+    cl = ["measure", "mode_" + case["mode"], "K=%d" % K if K <= 6 else "K>6", ("array_" + case.get("dtype", "int64")) if case["as_array"] else "list"]
     if any(sum(pair[a][c] for a in range(K)) == 0 for c in range(K)):
         cl.append("class_never_predicted")
     return Outcome.ok(nontrivial=nt, classes=cl)
